@@ -107,7 +107,7 @@ CHECKS = {
 
 # sentences appended to the level text (families added after the seeded rounds)
 ADD = {
- "C01": " Added: every sequence is handed over as a window of a longer stream and the stream is compared after each call (also C02-C04).",
+ "C01": " Added: every sequence is handed over as a window of a longer stream and the stream is compared after each call (also C02-C04); byte counts of 65541..131075 with a non-zero tail; every check runs after a prelude that writes to and appends to every slice the exported conversion helpers returned.",
  "C02": " Added: fillers of 2^18 and 10^6 bits with one run planted at j*2^k (k=10..17) of length 2^k-1..2^(k+1), all four run-based calls.",
  "C04": " Added: near-identical blocks (one bit flipped in the last 8 positions / first / middle) among 100 filler blocks for m=67,100,500,1000; Maurer: bursts of 16..127 never-seen letters after a constant / alternating initial segment.",
  "C05": " Added: every 1- and 2-byte string and fillers of 3..2500 bytes through the byte entry point and the registry runner; family S3: bin N/4 on the integer next to the threshold for the 15 most sensitive lengths in (2^14, 2^18], compared in exact integer arithmetic.",
@@ -120,7 +120,7 @@ ADD = {
  "C12": " Added: lists of 5000..10^6 values (uniform, skewed, everything in one or two intervals).",
  "C13": " Added: timers of the tool (progress tickers) are modelled by the scheduler; directories named *.bin/*.dat, a longer stale report at the report path, two sample files sharing a base name in two sub-directories (one row each).",
  "C14": " Added: under the controlled scheduler (stub runners) a rejected stream is judged while a second goroutine judges a healthy stream with the same detection (seq|fast x seq|fast, <=1 deviation, four policies): each call must return what it returns alone; healthy requests before stuck ones; single-shot lengths to 2^22 (2^24); four of the streams ending early (0..sN-1 bytes) through all six workflows.",
- "C15": " Added: ReadGroup on file sizes around 2^12..2^18 and over a named pipe delivering the contents in 1..3 pieces; byte lengths at regime boundaries; inputs of 2^20+3 .. 12500003 bytes; stuck inputs of 2^24+5 bytes.",
+ "C15": " Added: ReadGroup on file sizes around 2^12..2^18 and over a named pipe delivering the contents in 1..3 pieces; byte lengths at regime boundaries; inputs of 2^20+3 .. 12500003 bytes; stuck inputs of 2^24+5 bytes; every entry-point pair under load (eight goroutines per CPU, mixed and one pair at a time).",
  "C18": " Added: every registry runner repeated alone and paired with itself on 10^6-bit samples (<=1 preemption); inputs are windows of larger buffers (the spare capacity is hashed too); free-running -race pass: every entry point three at once on one shared buffer, sixteen goroutines running one operation on six inputs and eight on 10^6-bit samples, results compared with the solitary ones.",
  "C20": " Added: output and working directories whose names contain printf verbs, blanks, non-ASCII characters, a trailing separator or dot segments; names ending in .bin/.dat; larger stale samples; leftovers of an interrupted run (missing, empty, short sample inside a finished prefix).",
 }
